@@ -293,7 +293,6 @@ func (P *Program) resolveKey(k string) string {
 	return k
 }
 
-
 func cmdEffects(args []string) {
 	fs := flag.NewFlagSet("effects", flag.ExitOnError)
 	repo, pkg, ext := commonFlags(fs)
